@@ -45,6 +45,10 @@ struct Judge {
                 if (ctx.prop == "C19" || ctx.prop == "C05" || ctx.prop == "C02") { prop = ctx.prop; key = ctx.prop + ":" + f.key; }
                 else { res.harness_error = "inconclusive: scenario aborted by the engine (" + f.key + "): " + f.what; continue; }
             }
+            if (ctx.prop == "C17" && (key.rfind("C01:request-differs", 0) == 0 || key.rfind("C14:request-differs", 0) == 0 || key.rfind("C09:disconnect-contents", 0) == 0 || key.rfind("C10:connect-differs", 0) == 0)) {
+                // "says exactly what was asked": the contents monitors of the other properties are C17 findings in C17's own workloads
+                key = "C17:wire-contents:" + key; prop = "C17";
+            }
             std::string replay = "scenario:\n" + sc.describe() + "\nfinding: " + f.what + "\n\nhistory:\n" + ex.world->h.dump(900);
             if (prop == ctx.prop) res.violation(prop, key, f.what + " [family " + sc.family + " seed " + std::to_string(sc.seed) + " index " + std::to_string(sc.index) + "]", replay);
             else if (ctx.args.has("dump-notes")) res.violation(prop, key, f.what, replay);
@@ -797,11 +801,16 @@ void run_c16_api(Judge& j, uint64_t n) {
                     else continue;   // control characters / non-characters / NUL in a payload: don't-care
                     break;
                 }
-                case 3: case 4: {   // subscribe: filters (plain and shared)
+                case 3: case 4: {   // subscribe: one to three filters (plain and shared); one ill-formed filter anywhere spoils the request
                     a.kind = Action::subscribe;
                     if (what == 4) s = "$share/" + compose();
-                    a.subs = {{s, (uint8_t)rng.below(3)}};
-                    bool ok = s.rfind("$share/", 0) == 0 ? ref::shared_filter_ok(s) : ref::topic_filter_ok(s);
+                    int nf = (int)rng.range(1, 3), pos = (int)rng.below(nf);
+                    bool ok = true;
+                    for (int f = 0; f < nf; ++f) {
+                        std::string flt = f == pos ? s : rng.pick(std::vector<std::string>{"ok/a", "ok/+/b", "ok/#", "$share/grp/ok/x"});
+                        a.subs.emplace_back(flt, (uint8_t)rng.below(3));
+                        ok = ok && (flt.rfind("$share/", 0) == 0 ? ref::shared_filter_ok(flt) : ref::topic_filter_ok(flt));
+                    }
                     a.expect_immediate = !ok; a.expect_ec = ok ? 0 : 104;
                     break;
                 }
@@ -815,7 +824,9 @@ void run_c16_api(Judge& j, uint64_t n) {
                 }
                 case 6: {   // unsubscribe: filters ($share forms are don't-care there)
                     if (s.rfind("$share", 0) == 0) continue;
-                    a.kind = Action::unsubscribe; a.subs = {{s, 0}};
+                    a.kind = Action::unsubscribe;
+                    int nf = (int)rng.range(1, 3), pos = (int)rng.below(nf);
+                    for (int f = 0; f < nf; ++f) a.subs.emplace_back(f == pos ? s : std::string("ok/") + char('a' + f), 0);
                     bool ok = ref::topic_filter_ok(s);
                     a.expect_immediate = !ok; a.expect_ec = ok ? 0 : 104;
                     break;
@@ -1088,6 +1099,8 @@ int run_families(const FamilyCtx& ctx, vu::Result& res) {
         run_mix(j, knobs_for("c14-mix"), "c14-mix", T ? 30000 : 800);
         run_mix(j, knobs_for("c04-mix"), "c04-mix", T ? 30000 : 800);
         run_c10(j, T ? 30000 : 1200);
+        run_c15(j, T ? 2000 : 100);      // DISCONNECTs with every property shape under small Maximum Packet Size limits
+        run_idle_sweep(j, T ? 10 : 2, T ? 100 : 40, {1, 5});   // DISCONNECT with reason code and Reason String in many client states
     } else if (P == "C19") {
         run_c19(j, T ? 60000 : 1000);
     } else if (P == "C13") {
